@@ -76,7 +76,7 @@ class Cycle:
         with open(self.trace, "a") as f:
             f.write(json.dumps(dict(kw, w="drv", ev=ev)) + "\n")
 
-    def run(self, crash_at=0, signal_at=None, timeout=120):
+    def run(self, crash_at=0, signal_at=None, timeout=120, crash_group=False):
         """Start mrp on the pipestance; returns (exit status, seconds)."""
         env = dict(os.environ)
         env.update({"PATH": os.path.join(self.root, "bin") + ":" + env["PATH"], "MROPATH": self.wd,
@@ -84,8 +84,11 @@ class Cycle:
                     "TMPDIR": self.wd})
         env.pop("VERIF_CRASH_AT", None)
         env.pop("VERIF_SIGNAL_AT", None)
+        env.pop("VERIF_CRASH_GROUP", None)
         if crash_at:
             env["VERIF_CRASH_AT"] = str(crash_at)
+            if crash_group:
+                env["VERIF_CRASH_GROUP"] = "1"   # every job dies with mrp, without a word
         if signal_at:
             env["VERIF_SIGNAL_AT"] = "%d:%d" % signal_at
         cmd = [os.path.join(self.root, "bin", MRP), "p.mro", self.psid, "--disable-ui", "--localcores=%d" % self.cores,
